@@ -352,7 +352,7 @@ fn known_dim(v: &Numeric) -> Option<CssDimensionSet> {
         None
     }
 }
-fn known_dim_spec(v: &Numeric) -> Option<Vec<(Dimension, i8)>> {
+fn known_dim_spec(v: &Numeric) -> Option<Vec<(Dimension, i32)>> {
     let u = &v.unit;
     if u.is_known() && !u.is_percent() {
         Some(u.dimension())
